@@ -12,7 +12,7 @@ ADV = [0.0, -0.0, 5e-324, 2.2250738585072014e-308, 1e300, -1e-300, 0.1, 1 / 3, 1
 
 def snap(k, rng):
     f = [rng.choice(ADV), rng.uniform(-1, 1) * 10 ** rng.uniform(-20, 20)]
-    return {"id": k, "time": float(k) * 0.5, "position": [f[0], f[1]], "momentum": [rng.choice(ADV)],
+    return {"id": k, "time": float(k // 2 if rng.random() < 0.2 else k) * 0.5, "position": [f[0], f[1]], "momentum": [rng.choice(ADV)],
             "potential": f[1], "kinetic": abs(f[0]), "energy": f[1] + abs(f[0]), "active": k % 3,
             "density_matrix": [[1.0, 0.0, f[0], -f[1]], [f[0], f[1], 0.0, 0.0]],
             "electronics": {"hamiltonian": [[f[0], 0.0], [0.0, f[1]]]}, "hopping": f[1], "zeta": rng.random()}
@@ -99,6 +99,15 @@ def run(tier, seed):
                     m2 = handles[h][1].clone()
                     handles.append([y2, m2, list(handles[h][2]), list(handles[h][3])])
                     op = "OClone %s" % nat(h); ops.append(("clone", h))
+                if rng.random() < 0.3:
+                    # read-only queries leave the store as it is: file list (relative and absolute), length
+                    yq = handles[rng.randrange(len(handles))][0]
+                    before_q = (list(yq.logfiles), yq.main_log, yq.event_log, len(yq), listing(d))
+                    f1_ = list(yq.files()); f2_ = list(yq.files(absolute_path=True)); f3_ = list(yq.files())
+                    after_q = (list(yq.logfiles), yq.main_log, yq.event_log, len(yq), listing(d))
+                    res.count("read-only-queries")
+                    if before_q != after_q or f1_ != f3_ or len(f2_) != len(f1_) or sorted(set(f1_)) != sorted(f1_):
+                        bad.append(dict(failed="asking a trace for its file list changes nothing: two consecutive answers %r and %r, page list before %r and after %r" % (f1_, f3_, before_q[0], after_q[0]), case=dict(info))); raise StopIteration
                 steps.append((op, listing(d)))
                 # ---- observations: yaml == memory == recorded list
                 for (y, m, rec, evs) in handles:
